@@ -78,6 +78,11 @@ void mon_violation(const char *key, const char *fmt, ...) __attribute__((format(
 uint64_t mon_violations(void);
 /* a note (not a violation) that ends up in the evidence */
 void mon_note(const char *fmt, ...) __attribute__((format(printf, 1, 2)));
+
+/* leaves a stale error code of an unrelated, earlier failure in the thread's last-error slot (or clears it): a successful call
+ * must not look at it. Called by harnesses between operations. */
+struct mon_rng;
+void mon_poison_last_error(struct mon_rng *r);
 /* writes summary files; returns process exit code (0 ok, 1 violations) */
 int mon_finish(void);
 /* Scenario watchdog (threaded harnesses): if mon_watchdog_disarm() is not called within `seconds` of wall-clock
